@@ -492,3 +492,37 @@ def c20l(ctx):
             continue
         (ctx.ok if o.status == 'ok' else ctx.bad)('%s:%s' % (o.rule, o.construct), o.msg, o.where)
     ctx.stats['functions'] |= {q for q in sub.stats['functions'] if '_store_bulk' in q}
+
+
+@rule('C20.m', floor=4)
+def c20m(ctx):
+    """a tile service never sends the same validator for every tile: the compact cache has no time stamp per tile, its validator is
+    the size of the stored record.  Wherever a bundle delivers a tile (sets .source) while metadata is asked for, it records the size
+    next to it, and the cache hands `with_metadata` on to its bundles -- otherwise timestamp and size stay None and the ETag of every
+    tile is md5("NoneNone"): 304 for any client that revalidates, whatever is stored now"""
+    C = 'mapproxy/cache/compact.py'
+    for qn in (C + ':BundleV1.load_tiles', C + ':BundleV2._load_tile'):
+        fn = ctx.fn(qn)
+        g = fn.cfg
+        sources = g.find_stmts(lambda s: isinstance(s, ast.Assign) and any(isinstance(t, ast.Attribute) and t.attr == 'source' for t in s.targets))
+        sizes = g.find_stmts(lambda s: isinstance(s, ast.Assign) and any(isinstance(t, ast.Attribute) and t.attr == 'size' for t in s.targets))
+        ok = bool(sources) and bool(sizes) and 'with_metadata' in fn.params
+        for s_ in sources:
+            gs = {(at.text, p) for at, p in g.guards_of(s_)}
+            good = False
+            for z in sizes:
+                extra = {(at.text, p) for at, p in g.guards_of(z)} - gs
+                # recorded right where the tile is delivered, under no other condition than "metadata is wanted"
+                if is_call(g.stmt[z].value, 'len') and g.dominates(s_, z) and extra <= {('with_metadata', True)}:
+                    good = True
+            ok = ok and good
+        ctx.check(ok, '%s:size-recorded-with-metadata' % fn.short, 'a tile delivered with metadata has the size of its record', fn,
+                  fail='%s delivers tiles without recording their size when metadata is asked for: every tile of the cache has the same ETag' % fn.short)
+    base = ctx.repo.cls(C + ':CompactCacheBase')
+    for m in ('load_tile', 'load_tiles'):
+        fn = ctx.fn('%s:CompactCacheBase.%s' % (C, m))
+        calls = [x for x in fn.walk() if isinstance(x, ast.Call) and isinstance(x.func, ast.Attribute) and x.func.attr in ('load_tile', 'load_tiles') and
+                 not (isinstance(x.func.value, ast.Name) and x.func.value.id == 'self' and m == 'load_tile')]
+        ok = bool(calls) and all(keyword(x, 'with_metadata', 1) is not None and same(keyword(x, 'with_metadata', 1), 'with_metadata') for x in calls)
+        ctx.check(ok, 'CompactCacheBase.%s:hands-on-with-metadata' % m, 'the request for metadata reaches the bundle (%d calls)' % len(calls), fn,
+                  fail='CompactCacheBase.%s does not hand with_metadata on: the bundles never record the size' % m)
